@@ -493,6 +493,9 @@ func genC16(c *Ctx) any {
 	r := c.Rand("c16")
 	cs := &C16Case{}
 	cs.Data.Spec = GenDataSpec(c.Rand("data"), r.Range(1, 200), false)
+	if r.Chance(1, 12) {
+		cs.Data.Spec.N = 0 // an index without rows
+	}
 	if r.Chance(1, 8) {
 		// many keys: a read path that behaves differently beyond some number of bitmaps
 		cs.Data.Spec.N = r.Range(1200, 2500)
